@@ -19,14 +19,121 @@
 //! a (crate-private) `PathSetHandle` has: the handle of a managed pair, the wait-then-read
 //! sequence `MultiPathManager::path` performs on it, and read access to the handshake state.
 
-use std::sync::Arc;
+use std::{
+    future::Future,
+    pin::Pin,
+    sync::{Arc, RwLock},
+};
 
 use sciparse::{identifier::isd_asn::IsdAsn, path::ScionPath};
 
 use crate::path::{
     fetcher::traits::{PathFetchError, PathFetcher},
-    manager::{MultiPathManager, pathset::PathSetHandle},
+    manager::{
+        MultiPathManager,
+        pathset::{PathSetHandle, PathSetSharedState},
+    },
 };
+
+/// Where a task is when it reaches a yield point: between two lock-protected regions / lock-free
+/// loads or stores of the protocol between callers, worker and manager.
+pub struct YieldCtx {
+    /// Name of the yield point (`w:*` worker task, `h:*` `PathSetHandle`, `c:*` `path()`,
+    /// `e:*` `ensure_managed_paths`).
+    pub site: &'static str,
+    /// The src-dst pair, where the code at the yield point knows it.
+    pub pair: Option<(IsdAsn, IsdAsn)>,
+    /// The path set the task works on, where the code at the yield point knows it.
+    pub handle: Option<VerifHandle>,
+    /// The exit reason of the worker task (`w:exit` only).
+    pub reason: Option<&'static str>,
+}
+
+/// Future a task parks on at a yield point.
+pub type YieldFuture = Pin<Box<dyn Future<Output = ()> + Send>>;
+
+/// Decides what a task does at a yield point: `None` = go on, `Some(f)` = await `f` first.
+pub type YieldController = dyn Fn(YieldCtx) -> Option<YieldFuture> + Send + Sync;
+
+static YIELD_CONTROLLER: RwLock<Option<Arc<YieldController>>> = RwLock::new(None);
+
+/// Installs (or removes) the process-wide yield controller. Without one every yield point is a
+/// no-op.
+pub fn set_yield_controller(controller: Option<Arc<YieldController>>) {
+    *YIELD_CONTROLLER.write().unwrap() = controller;
+}
+
+fn controller() -> Option<Arc<YieldController>> {
+    YIELD_CONTROLLER.read().unwrap().clone()
+}
+
+/// Yield point in async code.
+pub(crate) async fn yield_point(ctx: YieldCtx) {
+    let parked = controller().and_then(|c| c(ctx));
+    if let Some(parked) = parked {
+        parked.await;
+    }
+}
+
+/// Notification from code that cannot await (the controller's future, if any, is dropped).
+pub(crate) fn note_point(ctx: YieldCtx) {
+    if let Some(c) = controller() {
+        drop(c(ctx));
+    }
+}
+
+impl YieldCtx {
+    /// Yield point of the worker task of a path set.
+    pub(crate) fn set(
+        site: &'static str,
+        src: IsdAsn,
+        dst: IsdAsn,
+        shared: &Arc<PathSetSharedState>,
+    ) -> Self {
+        YieldCtx {
+            site,
+            pair: Some((src, dst)),
+            handle: Some(VerifHandle(PathSetHandle {
+                shared: shared.clone(),
+            })),
+            reason: None,
+        }
+    }
+
+    /// Yield point of the worker task after it left its loop.
+    pub(crate) fn exit(
+        site: &'static str,
+        src: IsdAsn,
+        dst: IsdAsn,
+        shared: &Arc<PathSetSharedState>,
+        reason: &'static str,
+    ) -> Self {
+        YieldCtx {
+            reason: Some(reason),
+            ..Self::set(site, src, dst, shared)
+        }
+    }
+
+    /// Yield point inside a `PathSetHandle` method.
+    pub(crate) fn handle(site: &'static str, handle: &PathSetHandle) -> Self {
+        YieldCtx {
+            site,
+            pair: None,
+            handle: Some(VerifHandle(handle.clone())),
+            reason: None,
+        }
+    }
+
+    /// Yield point inside a `MultiPathManager` method.
+    pub(crate) fn pair(site: &'static str, src: IsdAsn, dst: IsdAsn) -> Self {
+        YieldCtx {
+            site,
+            pair: Some((src, dst)),
+            handle: None,
+            reason: None,
+        }
+    }
+}
 
 /// A `PathSetHandle` of a managed pair. Holding it does not keep the manager alive.
 #[derive(Clone)]
@@ -63,8 +170,24 @@ impl VerifHandle {
         let active = self.0.active_path().await.as_ref().map(|p| p.0.clone());
         match active {
             Some(active) => Ok(active),
-            None => Err(self.0.current_error()),
+            None => {
+                yield_point(YieldCtx::handle("c:before-read-err", &self.0)).await;
+                Err(self.0.current_error())
+            }
         }
+    }
+
+    /// `was_used_in_idle_period` of the path set.
+    pub fn used_flag(&self) -> bool {
+        self.0
+            .shared
+            .was_used_in_idle_period
+            .load(std::sync::atomic::Ordering::Relaxed)
+    }
+
+    /// Identity of the path set (address of its shared state; stable while a handle is held).
+    pub fn id(&self) -> usize {
+        Arc::as_ptr(&self.0.shared) as usize
     }
 
     /// `PathSetHandle::current_error`.
@@ -82,7 +205,13 @@ impl VerifHandle {
                 guard.current_error.as_ref().map(|e| e.to_string()),
             )
         };
-        let active = self.0.shared.active_path.load().as_ref().map(|p| p.0.clone());
+        let active = self
+            .0
+            .shared
+            .active_path
+            .load()
+            .as_ref()
+            .map(|p| p.0.clone());
         VerifSyncState {
             initialized,
             ongoing,
